@@ -17,7 +17,7 @@ RULES = {
 }
 CONTROL_REV = '078b142'  # thorough tier: the rules must still report the defects found (and since fixed) on the original tree
 CONTROLS = [('C03.R5', 'AffTree::generic_composition_inplace#call:Tree::remove_child'), ('C03.R5', 'AffTree::infeasible_elimination#call:Tree::try_remove_child')]
-FLOORS = {'C03.R8': 2, 'C03.R7': 15, 'C03.R6': 9, 'C03.R1': 9, 'C03.R2': 12, 'C03.R3': 5, 'C03.R4': 2, 'C03.R5': 5}
+FLOORS = {'C03.R8': 5, 'C03.R7': 15, 'C03.R6': 9, 'C03.R1': 9, 'C03.R2': 12, 'C03.R3': 5, 'C03.R4': 2, 'C03.R5': 5}
 EXPLANATION = ('A path can disappear only after the LP back-end answered "infeasible" about exactly that path; '
                'decided structurally on every removal site, for all trees and inputs.')
 DOES_NOT_DECIDE = 'whether the LP answer is right (C10), tolerance effects'
